@@ -34,3 +34,6 @@ CHECKS['C02'] = (_SYMX + '; Gillespie_SIS: law identities from branch conditions
 CHECKS['C15'] = (_SYMX + '; reference chain maintained from the chooser answers, law identities decided by z3',
                  'for four user-model families, per reachable state: clock rate = sum of user rates on the current statuses, candidate weights = those rates, callbacks always see the current statuses, new status = chooser answer, stop iff all rates vanish, counts track statuses',
                  'floats as reals; graphs <= 3 (4) nodes; <= 3 (4) events; weighted candidate set via its abstraction (C16)', 'DESIGN.md 6/C15')
+CHECKS['C12'] = (_SYMX + '; BFS characterisation under all deterministic rules; trajectory masses vs Reed-Frost kernels as polynomial identities in symbolic p',
+                 'discrete_SIR: for every contact digraph and recovery-test outcome on the graphs of the bound, infection generation = BFS distance, one infectious step, conservation, horizon; basic/percolation-based SIR and basic SIS: total probability of every node-state trajectory equals the product of Reed-Frost / discrete-SIS kernels for all p; percolate_network: one draw per edge, kept iff draw < p',
+                 'floats as reals; graphs <= 3 (4) nodes; SIS <= 2 (3) steps', 'DESIGN.md 6/C12')
